@@ -17,6 +17,7 @@ import (
 //	op 3  BetaInc grid: (A,B), Xs (sorted by the generator); also BetaInc(1-x, B, A)
 //	op 4  GammaInc/GammaIncComp grid: A, Xs
 //	op 5  Beta over pairs (Xs[2i], Xs[2i+1])
+//	op 6  monotonicity scan in x (hb_scan.go): Fn, A (, B), [Lo,Hi] in N cells
 type c08Case struct {
 	Op int   `json:"op"`
 	N  int   `json:"n,omitempty"`
@@ -24,6 +25,9 @@ type c08Case struct {
 	A  F64   `json:"a,omitempty"`
 	B  F64   `json:"b,omitempty"`
 	Xs []F64 `json:"xs,omitempty"`
+	Fn int   `json:"fn,omitempty"` // op 6: 1 BetaInc(.,A,B), 2 GammaInc(A,.), 3 GammaIncComp(A,.)
+	Lo F64   `json:"lo,omitempty"` // op 6: scan range, N cells
+	Hi F64   `json:"hi,omitempty"`
 }
 
 func c08Run(raw []byte) (*Line, error) {
@@ -96,6 +100,44 @@ func c08Run(raw []byte) (*Line, error) {
 			a, b := float64(c.Xs[i]), float64(c.Xs[i+1])
 			l.F(a).F(b).F(mathx.Beta(a, b))
 		}
+	case 6:
+		a, b := float64(c.A), float64(c.B)
+		lo, hi := float64(c.Lo), float64(c.Hi)
+		if !(a > 0) || math.IsInf(a, 0) || !(lo < hi) || math.IsInf(lo, 0) || math.IsInf(hi, 0) || c.N < 8 || c.N > 2000000 {
+			return nil, fmt.Errorf("bad scan")
+		}
+		var f func(float64) float64
+		dir := 1.0
+		switch c.Fn {
+		case 1:
+			if !(b > 0) || math.IsInf(b, 0) || lo < 0 || hi > 1 {
+				return nil, fmt.Errorf("bad scan")
+			}
+			f = func(x float64) float64 { return mathx.BetaInc(x, a, b) }
+		case 2:
+			if lo < 0 {
+				return nil, fmt.Errorf("bad scan")
+			}
+			b = 0
+			f = func(x float64) float64 { return mathx.GammaInc(a, x) }
+		case 3:
+			if lo < 0 {
+				return nil, fmt.Errorf("bad scan")
+			}
+			b, dir = 0, -1
+			f = func(x float64) float64 { return mathx.GammaIncComp(a, x) }
+		default:
+			return nil, fmt.Errorf("bad fn")
+		}
+		var pairs []scanPair
+		status := 0
+		if p, _ := catch(func() { pairs = monoScan(f, lo, hi, c.N, dir, 4) }); p {
+			status, pairs = 2, nil
+		}
+		l.I(c.Fn).F(a).F(b).F(lo).F(hi).I(c.N).I(status).I(len(pairs))
+		for _, p := range pairs {
+			l.F(p.Lo).F(p.Hi).F(p.FLo).F(p.FHi)
+		}
 	default:
 		return nil, fmt.Errorf("bad op")
 	}
@@ -127,6 +169,25 @@ func c08SortedUnique(xs []float64) []F64 {
 	return r
 }
 
+// the floats around the switch-over of BetaInc(., a, b), x = fl((a+1)/(a+b+2)) with 4 neighbours on each
+// side, and around the mirrored switch-over of the reflected call BetaInc(1-x, b, a), 1-x = fl((b+1)/(a+b+2)):
+// where the two evaluation branches (and a recursive reformulation of them) meet
+func c08Switch(a, b float64) []float64 {
+	var xs []float64
+	around := func(c float64) {
+		lo, hi := c, c
+		xs = append(xs, c)
+		for i := 0; i < 4; i++ {
+			lo, hi = math.Nextafter(lo, 0), math.Nextafter(hi, 1)
+			xs = append(xs, lo, hi)
+		}
+	}
+	thr := (a + 1) / (a + b + 2)
+	around(thr)
+	around(1 - (b+1)/(a+b+2))
+	return xs
+}
+
 // x grid for BetaInc(., a, b): dyadic grid, points near 0 and 1, the mean and the
 // switch-over x = (a+1)/(a+b+2) with its float neighbours; all inside [0,1].
 func c08BetaGrid(rng *rand.Rand, a, b float64, den float64, extra bool) []float64 {
@@ -139,7 +200,8 @@ func c08BetaGrid(rng *rand.Rand, a, b float64, den float64, extra bool) []float6
 	fine := 4096.0
 	xs = append(xs, math.Floor(thr*fine)/fine, math.Ceil(thr*fine)/fine, math.Floor(mean*fine)/fine, math.Ceil(mean*fine)/fine)
 	if extra {
-		xs = append(xs, thr, math.Nextafter(thr, 0), math.Nextafter(thr, 1), mean)
+		xs = append(xs, mean)
+		xs = append(xs, c08Switch(a, b)...)
 		for _, e := range []float64{10, 20, 30, 40, 52} {
 			xs = append(xs, math.Ldexp(1, int(-e)), 1-math.Ldexp(1, int(-e)))
 		}
@@ -247,6 +309,38 @@ func c08Gen(tier string, rng *rand.Rand, emit func(interface{})) {
 		}
 		emit(c)
 	}
+	// (iv) non-dyadic parameters (decimal fractions, thirds, sevenths): the computed switch-over values are not
+	//      exact there; only the floats around the two switch-overs and a few interior points
+	nDec := 250
+	if thorough {
+		nDec = 6000
+	}
+	decParam := func() float64 {
+		switch rng.Intn(4) {
+		case 0:
+			return float64(1+rng.Intn(60)) / 10
+		case 1:
+			return float64(1+rng.Intn(3000)) / 10
+		case 2:
+			return float64(1+rng.Intn(90)) / 3
+		default:
+			return float64(1+rng.Intn(200)) / 7
+		}
+	}
+	for it := 0; it < nDec; it++ {
+		a, b := decParam(), decParam()
+		if it == 0 {
+			a, b = 0.1, 2.2
+		}
+		xs := append(c08Switch(a, b), 0, 0.25, 0.5, 0.75, 1)
+		var in []float64
+		for _, x := range xs {
+			if x >= 0 && x <= 1 {
+				in = append(in, x)
+			}
+		}
+		emit(c08Case{Op: 3, A: F64(a), B: F64(b), Xs: c08SortedUnique(in)})
+	}
 	// corners of the parameter range
 	for _, a := range []float64{0.05, 300} {
 		for _, b := range []float64{0.05, 1, 300} {
@@ -263,6 +357,8 @@ func c08Gen(tier string, rng *rand.Rand, emit func(interface{})) {
 		sw := a + 1
 		xs = append(xs, sw, math.Nextafter(sw, 0), math.Nextafter(sw, math.Inf(1)), math.Floor(sw), math.Ceil(sw)+1)
 		xs = append(xs, a+10, a+50, 3*a+100, 1000)
+		// far tail ("x >= 0"): the prefactor x^a e^-x / Gamma(a) must underflow to 0, not overflow on the way
+		xs = append(xs, 1e4, 1e6, 1e10, 1e25, 1e100, 1e300, math.MaxFloat64)
 		for i := 0; i < 3; i++ {
 			xs = append(xs, math.Round(rng.Float64()*2*(a+1)*1024)/1024)
 		}
@@ -295,6 +391,31 @@ func c08Gen(tier string, rng *rand.Rand, emit func(interface{})) {
 	nanXs := []F64{0, 1, 2.5, -1, F64(-5e-324), F64(math.NaN()), F64(math.Inf(-1)), -1e300}
 	for _, a := range []float64{0, math.Copysign(0, -1), -1, -0.5, math.NaN(), math.Inf(-1), -5e-324, 1, 2.5} {
 		emit(c08Case{Op: 4, A: F64(a), Xs: nanXs})
+	}
+	// ---- op 6: monotonicity scans in x (discontinuity hunt, hb_scan.go) over the central mass
+	cells := 200000
+	betaScan := [][2]float64{{0.3, 0.7}, {2.5, 3.5}, {125, 0.5}, {150, 150}, {300, 300}, {171.65, 0.5}}
+	gammaScan := []float64{0.7, 5, 120, 300}
+	if thorough {
+		cells = 1000000
+		betaScan = append(betaScan, [2]float64{0.05, 0.05}, [2]float64{1, 1}, [2]float64{0.5, 5000}, [2]float64{50.25, 0.5}, [2]float64{300, 0.05}, [2]float64{17, 230.5})
+		gammaScan = append(gammaScan, 0.05, 1, 2.5, 30, 75.5, 200.25)
+		for i := 0; i < 8; i++ {
+			betaScan = append(betaScan, [2]float64{c08Param(rng, 0.05, 300, 64), c08Param(rng, 0.05, 300, 64)})
+			gammaScan = append(gammaScan, c08Param(rng, 0.05, 300, 64))
+		}
+	}
+	for _, ab := range betaScan {
+		a, b := ab[0], ab[1]
+		mean := a / (a + b)
+		sd := math.Sqrt(a * b / ((a + b) * (a + b) * (a + b + 1)))
+		lo, hi := math.Max(1.0/1024, mean-7*sd), math.Min(1-1.0/1024, mean+7*sd)
+		emit(c08Case{Op: 6, Fn: 1, A: F64(a), B: F64(b), Lo: F64(lo), Hi: F64(hi), N: cells})
+	}
+	for _, a := range gammaScan {
+		lo, hi := math.Max(1.0/64, a-7*math.Sqrt(a)), a+9*math.Sqrt(a)+12
+		emit(c08Case{Op: 6, Fn: 2, A: F64(a), Lo: F64(lo), Hi: F64(hi), N: cells})
+		emit(c08Case{Op: 6, Fn: 3, A: F64(a), Lo: F64(lo), Hi: F64(hi), N: cells})
 	}
 	// ---- op 5: Beta(a,b)
 	var bx []F64
